@@ -36,6 +36,17 @@ class Gen:
         self.fresh = 0
         self.guards = []     # loop guard variables currently protected (must not occur in a for body)
         self.stats = {}
+        self.twins = []      # (sugar text, documented plain rewriting) for every sugar statement emitted
+
+    def sugar(self, sugar_text, plain_text):
+        """emit a sentinel that renders as the sugar spelling or as its documented rewriting"""
+        self.twins.append((sugar_text, plain_text))
+        return '§%d§' % (len(self.twins) - 1)
+
+    def render(self, text, plain=False):
+        for k, (a, b) in enumerate(self.twins):
+            text = text.replace('§%d§' % k, b if plain else a)
+        return text
 
     def note(self, k):
         self.stats[k] = self.stats.get(k, 0) + 1
@@ -52,7 +63,7 @@ class Gen:
     def maybe_cast(self, e):
         if self.o.sugar and self.rng.random() < 0.15:
             self.note('cast_operand')
-            return f'(int){e}'
+            return self.sugar(f'(int){e}', e)
         return e
 
     def assign(self):
@@ -64,11 +75,10 @@ class Gen:
         if k < 0.2:
             y = self.var()
             self.note('copy')
-            rhs = y
             if self.o.sugar and self.o.whole_rhs_cast and r.random() < 0.15:
                 self.note('cast_whole_rhs_id')
-                rhs = f'(int){y}'
-            return f'{x} = {rhs};'
+                return self.sugar(f'{x} = (int){y};', f'{x} = {y};')
+            return f'{x} = {y};'
         if k < 0.3:
             self.note('const')
             return f'{x} = {r.choice([0, 1, 5])};'
@@ -79,26 +89,26 @@ class Gen:
             y = self.var()
             if form in ('x++', 'x--'):
                 self.nbin += 1
-                return f'{x}{form[1:]};'
+                return self.sugar(f'{x}{form[1:]};', f'{x} = {x} {form[1]} 1;')
             if form in ('++x', '--x'):
                 self.nbin += 1
-                return f'{form[:2]}{x};'
+                return self.sugar(f'{form[:2]}{x};', f'{x} = {x} {form[0]} 1;')
             if form in ('y=x++', 'y=x--'):
                 self.nbin += 1
-                return f'{y} = {x}{form[3:]};'
+                return self.sugar(f'{y} = {x}{form[3:]};', f'{{ {y} = {x}; {x} = {x} {form[3]} 1; }}')
             if form in ('y=++x', 'y=--x'):
                 self.nbin += 1
-                return f'{y} = {form[2:4]}{x};'
+                return self.sugar(f'{y} = {form[2:4]}{x};', f'{{ {x} = {x} {form[2]} 1; {y} = {x}; }}')
             if form == 'y=-x':
                 self.nbin += 1
-                return f'{y} = -{x};'
+                return self.sugar(f'{y} = -{x};', f'{y} = {x} * 7;')
             if form == 'y=+x':
-                return f'{y} = +{x};'
+                return self.sugar(f'{y} = +{x};', f'{y} = {x};')
             if form == 'y=!x':
-                return f'{y} = !{x};'
+                return self.sugar(f'{y} = !{x};', f'{y} = 1;')
             if form == 'y=sizeof':
-                return f'{y} = sizeof({x});'
-            return f'{y} = -5;'
+                return self.sugar(f'{y} = sizeof({x});', f'{y} = 64;')
+            return self.sugar(f'{y} = -5;', f'{y} = 5;')
         # binary operation
         self.nbin += 1
         op = r.choice(['+', '+', '-', '*', '*'])
@@ -112,11 +122,10 @@ class Gen:
         elif mode < 0.5:
             a = b = x
         self.note('bin_' + op)
-        rhs = f'{self.maybe_cast(a)} {op} {self.maybe_cast(b)}'
         if self.o.sugar and self.o.whole_rhs_cast and r.random() < 0.1:
             self.note('cast_whole_rhs_bin')
-            rhs = f'(int)({rhs})'
-        return f'{x} = {rhs};'
+            return self.sugar(f'{x} = (int)({a} {op} {b});', f'{x} = {a} {op} {b};')
+        return f'{x} = {self.maybe_cast(a)} {op} {self.maybe_cast(b)};'
 
     def cond(self):
         r = self.rng
@@ -219,7 +228,11 @@ class Gen:
             for pre in ('it',):
                 if f'{pre}{k} ' in body or f'{pre}{k}+' in body or f'{pre}{k};' in body or f'{pre}{k})' in body:
                     decls += f'int {pre}{k}; '
-        return f'int {name}({params}) {{ {decls}{body[1:-1]} }}'
+        self.template = f'int {name}({params}) {{ {decls}{body[1:-1]} }}'
+        return self.render(self.template)
+
+    def plain_twin(self):
+        return self.render(self.template, plain=True)
 
 
 def gen_function(rng, opts, name='f', names=None):
